@@ -396,6 +396,7 @@ class Parser {
     if (numref::parse_strict_lenient(tok, lit)) {
       if (lit.has_frac || lit.has_exp) r_.has_frac = true;
       out = numref::literal_value(lit, tok);
+      if (out.k == Val::Flt) out.s = tok;  // the literal itself: comparators judge the boundary cases on it
       return OK;
     }
     // NaN / Infinity
